@@ -237,3 +237,73 @@ func KindString(kinds []int) string {
 	}
 	return sb.String()
 }
+
+// SubRel is one registered field-subnode relation: Child is the subnode `Field` of Parent.
+type SubRel struct{ Parent, Field, Child int }
+
+// RandSubs registers a random forest of field subnodes over the universe (a child has a larger
+// index than its parent, one parent per child, one child per (parent, field)); children get the kind
+// of their parent, as FieldSubnode creates them.
+func RandSubs(r *rand.Rand, kinds []int) []SubRel {
+	var subs []SubRel
+	used := map[[2]int]bool{}
+	for c := 1; c < len(kinds); c++ {
+		if r.Intn(3) != 0 {
+			continue
+		}
+		p, f := r.Intn(c), r.Intn(2)
+		if used[[2]int{p, f}] {
+			continue
+		}
+		used[[2]int{p, f}] = true
+		subs = append(subs, SubRel{p, f, c})
+		kinds[c] = kinds[p]
+	}
+	return subs
+}
+
+// Root returns the root of n in the subnode forest.
+func Root(subs []SubRel, n int) int {
+	for {
+		found := false
+		for _, s := range subs {
+			if s.Child == n {
+				n = s.Parent
+				found = true
+				break
+			}
+		}
+		if !found {
+			return n
+		}
+	}
+}
+
+// FixSubFlags makes the subnode bit of every edge agree with the registered relations: cleared on
+// unrelated pairs, set (with probability 3/4 when both ends are present) on related pairs.
+func (g *EG) FixSubFlags(r *rand.Rand, subs []SubRel) {
+	rel := map[[2]int]bool{}
+	for _, s := range subs {
+		rel[[2]int{s.Parent, s.Child}] = true
+	}
+	for a := 0; a < g.N; a++ {
+		for b := 0; b < g.N; b++ {
+			g.Fl[a][b] &^= 4
+			if rel[[2]int{a, b}] && g.Dom[a] && g.Dom[b] && r.Intn(4) != 0 {
+				g.Fl[a][b] |= 4
+			}
+		}
+	}
+	g.Close()
+}
+
+// Pointees lists the nodes a points to.
+func (g *EG) Pointees(a int) []int {
+	var ps []int
+	for b := 0; b < g.N; b++ {
+		if g.Fl[a][b] != 0 {
+			ps = append(ps, b)
+		}
+	}
+	return ps
+}
